@@ -9,9 +9,9 @@ CONSTANTS
   FloorN = 1
   Variants = {"mem","redis"}
   Caps = {1,2,99}
-  AllowEvictLive = FALSE
-  AllowForeignDelete = FALSE
-  AllowForeignShorten = FALSE
+  AllowEvictLive = TRUE
+  AllowForeignDelete = TRUE
+  AllowForeignShorten = TRUE
   MaxHist = 0
 INVARIANTS TypeOK MutualExclusion OnlyOwnerReleases NeverTainted
 VIEW view
